@@ -341,6 +341,9 @@ def trackidFrame (items : List Item) : Except PyErr IFrame :=
   | [_] => .error .attribute
   | _ => .error .value
 
+/-- `for frame in frames: id3.add(frame)` for WOAR frames made of the URLs `l` -/
+def woarPut (l : List Text) (base : Id3) : Id3 := l.foldl (fun acc u => insert (pWOAR ++ u) (.woar u) acc) base
+
 /-- result of a setter: the exception (if any) and the native tags afterwards — a setter that
 raises may already have added a frame -/
 abbrev SetRes := Except PyErr Unit × Id3
@@ -371,7 +374,7 @@ def eiSet (s : Id3) (e : EIEntry) (kt : Text) (v : PVal) : SetRes :=
       | .ok f => (.ok (), insert kUFID f s)
       | .error err => (.error err, s)
     | .website, some l =>
-      (.ok (), l.foldl (fun acc u => insert (pWOAR ++ u) (.woar u) acc) (delallPrefix pWOAR s))
+      (.ok (), woarPut l (delallPrefix pWOAR s))
     | .gain, _ =>
       match items with
       | [.prim (.str t)] =>
@@ -552,6 +555,11 @@ def easyId3Step (s : Id3) : Op PKey PVal → Out PKey PVal × Id3
       else (.err e, s)
   | op => easyId3Impl.step s op
 
+/-- a whole operation sequence on the real object -/
+def easyId3Run : List (Op PKey PVal) → Id3 → List (Out PKey PVal)
+  | [], _ => []
+  | op :: ops, s => (easyId3Step s op).1 :: easyId3Run ops (easyId3Step s op).2
+
 /-! ### the documented key / value rules, and the part of the view that follows them -/
 
 /-- the key a handler's entry is filed under in the view: the registered key, or for the glob
@@ -593,14 +601,17 @@ def eiPlain (e : EIEntry) : Bool :=
   | .website => false
   | _ => true
 
+/-- the entries of the proved part: the single-frame ones and `website` (one WOAR frame per URL) -/
+def eiGood (e : EIEntry) : Bool := eiPlain e || e.kind == .website
+
 /-- the keys for which the refinement theorem is stated: every key but those of the three glob
-entries `replaygain_*_gain`, `replaygain_*_peak` (gain and peak share one RVA2 frame),
-`performer:*` (the handler gets the role as typed; all roles share one TMCL frame) and
-`website` (one WOAR frame per URL).  Unregistered keys are included (`KeyError`). -/
+entries `replaygain_*_gain`, `replaygain_*_peak` (gain and peak share one RVA2 frame) and
+`performer:*` (the handler gets the role as typed; all roles share one TMCL frame).
+Unregistered keys are included (`KeyError`). -/
 def eiGoodKey (k : PKey) : Bool :=
   match eiEntryOf k with
   | none => true
-  | some (e, _) => eiPlain e
+  | some (e, _) => eiGood e
 
 /-- the view restricted to the good keys: any other key is answered "outside" -/
 def easyId3ImplG : MapImpl Id3 PKey PVal where
@@ -634,6 +645,7 @@ def frameOK (hk : Text) (f : IFrame) : Bool :=
   | .genre, .text _ l => l.all genrePlain
   | .stamps, .stamps _ _ => true
   | .ufid, .ufid _ _ => true
+  | .woar, .woar u => hk == pWOAR ++ u
   | _, _ => false
 
 /-- the HashKey an entry reads and writes (all kinds but `website`, which owns every `WOAR:…`) -/
